@@ -158,7 +158,7 @@ def quadruples(m, scratch, rng, rep, n):
 EVOLUTIONS = ["reversion", "remove", "rename", "recluster", "edit-body-autoversion", "zero-params"]
 
 
-def evolution(m, scratch, rng, rep, cluster, kind, idx):
+def evolution(m, scratch, rng, rep, cluster, kind, idx, read_before=False):
     from twosigma.memento.storage_filesystem import FilesystemStorageBackend
     from . import fnlib
     root = os.path.join(scratch, "emods")
@@ -195,6 +195,12 @@ def evolution(m, scratch, rng, rep, cluster, kind, idx):
     try:
         mod = write_module(root, modname, src("1" if kind != "edit-body-autoversion" else None))
         before = mod.caller(3)
+        if read_before:
+            # the entry is also read while the callee's version is still current (anything remembered from that read must not outlive the edit)
+            meta["read_before_edit"] = True
+            mod.caller.memento(3)
+            mod.caller.list_mementos()
+            mod.caller(3)
         if kind == "reversion" or kind == "zero-params":
             mod = write_module(root, modname, src("2"))
         elif kind == "remove":
@@ -253,8 +259,8 @@ def run(tier, seed):
                     rep.broken.append("C12 pattern description: parse_qualified_name(%r) differs from the functional description of the pattern in the source" % s)
         nq = quadruples(m, scratch, rng, rep, nquad)
         ne = 0
-        for idx, (cluster, kind) in enumerate(itertools.product([None, "named"], EVOLUTIONS)):
-            evolution(m, scratch, rng, rep, cluster, kind, idx)
+        for idx, (cluster, kind, rb) in enumerate(itertools.product([None, "named"], EVOLUTIONS, [False, True])):
+            evolution(m, scratch, rng, rep, cluster, kind, idx, rb)
             ne += 1
         rep.samples = [{"regex_strings": strs[100:104]}, {"evolutions": EVOLUTIONS}]
         rep.coverage.update({
